@@ -125,6 +125,44 @@ def jobs(tier, seed):
     return out
 
 
+VALIDATE_JOB = "objects shipped to dask workers (pickle round trip)"
+PICKLE_OB = "the shower kernel object that dask serialises for process / distributed schedulers arrives with the state it was built with"
+
+
+def _pickle_probe():
+    """The scheduler clause itself (bit-identical tables under every dask scheduler) is not encoded (DESIGN.md 4, C10).
+    What CAN be probed cheaply is the one thing a serialising scheduler does to the code under test: it pickles the
+    CphotAng instance (bound method in the bag's map).  A round trip through cloudpickle must preserve every
+    attribute and the result of run() bit for bit, for a detector altitude other than the default."""
+    import warnings
+
+    import cloudpickle
+    import numpy as np
+
+    from nuspacesim.simulation.eas_optical.cphotang import CphotAng
+
+    warnings.simplefilter("ignore")
+    bad = []
+    for alt in (33.0, 1000.0):
+        a = CphotAng(alt)
+        b = cloudpickle.loads(cloudpickle.dumps(a))
+        va, vb = vars(a), vars(b)
+        diff = [k for k in va if k not in vb or not (np.array_equal(va[k], vb[k]) if isinstance(va[k], np.ndarray) else va[k] == vb[k])]
+        if diff:
+            bad.append((PICKLE_OB, f"CphotAng({alt}) after a cloudpickle round trip: attributes {diff} differ (detector_altitude {getattr(b, 'detector_altitude', None)!r} instead of {alt!r})"))
+            continue
+        ra, rb = a.run(0.2, 2.0, 1.0, 0.1, 0.2, None), b.run(0.2, 2.0, 1.0, 0.1, 0.2, None)
+        if not (np.array_equal(ra[0], rb[0]) and np.array_equal(ra[1], rb[1])):
+            bad.append((PICKLE_OB, f"CphotAng({alt}).run differs after a cloudpickle round trip: {ra} vs {rb}"))
+    return bad
+
+
+def validate(seed, tier):
+    bad = _pickle_probe()
+    return 2, [{"obligation": ob_, "verdict": "sat", "kind": "claim", "time_s": 0.0, "model": {}, "detail": det,
+                "reason": "concrete probe of an assumption about a layer that is not encoded (dask serialisation)"} for ob_, det in bad]
+
+
 def replay(v):
     """Real compute() on a small run (synchronous dask scheduler), checking the structural predicate."""
     import sys
@@ -139,6 +177,11 @@ def replay(v):
     dask.config.set(scheduler="synchronous")
     comp = sys.modules["nuspacesim.compute"]
     job, ob = v.get("job", ""), v["obligation"]
+    if job == VALIDATE_JOB:
+        bad = _pickle_probe()
+        if bad:
+            return {"reproduced": True, "key": "shower kernel object does not survive serialisation to a dask worker", "detail": bad[0][1]}
+        return {"reproduced": False, "key": None, "detail": "pickle round trip preserves the kernel object"}
     args = job[len("compute("):].split(",")
     mode, sp = args[0], args[1]
     optical, radio = "optical=True" in job, "radio=True" in job
@@ -211,6 +254,20 @@ def replay(v):
         for k in RKEYS:
             if t.meta[k][0] != tr.meta[k][0] and not (np.isnan(t.meta[k][0]) and np.isnan(tr.meta[k][0])):
                 bad = f"radio keyword {k} changes when optical is switched off: {t.meta[k][0]} vs {tr.meta[k][0]}"
+    if bad is None and ("column set" in ob or "keywords" in ob or "every stored column" in ob or "one row per" in ob) and not target:
+        # the same structural predicate on a run with exactly ONE surviving trajectory (a symbolic survival pattern of its own)
+        try:
+            np.random.seed(0)
+            with warnings.catch_warnings():
+                warnings.simplefilter("ignore")
+                t1 = comp.compute(mk(optical, radio, thrown=1))
+        except Exception as ex:
+            return {"reproduced": True, "key": f"compute() raises {type(ex).__name__} for a one-survivor run", "detail": f"{type(ex).__name__}: {ex} ({job})"}
+        if len(t1) == 1:
+            if sorted(t1.colnames) != sorted(expected_columns(mode, optical, radio)):
+                bad = f"one surviving trajectory: columns {sorted(t1.colnames)} expected {sorted(expected_columns(mode, optical, radio))}"
+            elif not (all((k in t1.meta) == optical for k in OKEYS) and all((k in t1.meta) == radio for k in RKEYS)):
+                bad = f"one surviving trajectory: header keywords {[k for k in t1.meta if k in OKEYS + RKEYS]}"
     if bad:
         return {"reproduced": True, "key": "full run: " + bad.split(":")[0][:70], "detail": bad + f" ({job})"}
     return {"reproduced": False, "key": None, "detail": "real run satisfies the structural predicate"}
